@@ -487,7 +487,7 @@ pub fn spaces_c03(tier: Tier) -> Vec<Space> {
     v
 }
 
-const HIST_MUTATIONS: [&str; 10] = [
+const HIST_MUTATIONS: [&str; 14] = [
     "none",
     "set_input(same outpoint, other sequence)",
     "set_input(same txid, other vout)",
@@ -498,6 +498,10 @@ const HIST_MUTATIONS: [&str; 10] = [
     "set_nlocktime",
     "add_input",
     "add_output",
+    "add_inputs(two)",
+    "add_outputs(two)",
+    "add_outputs(two) from no outputs",
+    "add_inputs(one) add_outputs(one)",
 ];
 
 fn lib_txin(i: &RIn) -> bsv::TxIn {
@@ -517,6 +521,9 @@ fn history_case(acc: &mut Acc, case: &Case, f1: u32, f2: u32, mutation: &str, id
     let sub = p2pkh(0x55);
     let value = 0x0102030405u64;
     let input = json!({"flag_before": format!("0x{:02x}", f1), "mutation": mutation, "flag_after": format!("0x{:02x}", f2), "input_index": idx});
+    if mutation == "add_outputs(two) from no outputs" {
+        model.outputs.clear();
+    }
     let m0 = model.clone();
     let lib = guard(|| -> Result<Vec<u8>, String> {
         let mut t = Transaction::new(m0.version, m0.locktime);
@@ -527,7 +534,8 @@ fn history_case(acc: &mut Acc, case: &Case, f1: u32, f2: u32, mutation: &str, id
             t.add_output(&lib_txout(o));
         }
         let script = Script::from_bytes(&sub).unwrap();
-        let _ = t.sighash_preimage(flag_to_sighash(f1).unwrap(), idx, &script, value).map_err(|e| e.to_string())?;
+        // the first observation only warms the caches; it may legitimately be refused (SINGLE without a matching output)
+        let _ = t.sighash_preimage(flag_to_sighash(f1).unwrap(), idx, &script, value);
         match mutation {
             "set_input(same outpoint, other sequence)" => t.set_input(1, &lib_txin(&RIn { sequence: 0x0a0b0c0d, ..m0.inputs[1].clone() })),
             "set_input(same txid, other vout)" => t.set_input(0, &lib_txin(&RIn { vout: 0x7777, ..m0.inputs[0].clone() })),
@@ -542,6 +550,12 @@ fn history_case(acc: &mut Acc, case: &Case, f1: u32, f2: u32, mutation: &str, id
             }
             "add_input" => t.add_input(&lib_txin(&RIn { txid_wire: [0x33; 32], vout: 9, script: vec![], sequence: 0x00000011 })),
             "add_output" => t.add_output(&lib_txout(&ROut { value: 77, script: vec![0x52] })),
+            "add_inputs(two)" => t.add_inputs(vec![lib_txin(&RIn { txid_wire: [0x33; 32], vout: 9, script: vec![], sequence: 0x00000011 }), lib_txin(&RIn { txid_wire: [0x34; 32], vout: 8, script: vec![], sequence: 0x00000012 })]),
+            "add_outputs(two)" | "add_outputs(two) from no outputs" => t.add_outputs(vec![lib_txout(&ROut { value: 77, script: vec![0x52] }), lib_txout(&ROut { value: 78, script: vec![0x53] })]),
+            "add_inputs(one) add_outputs(one)" => {
+                t.add_inputs(vec![lib_txin(&RIn { txid_wire: [0x33; 32], vout: 9, script: vec![], sequence: 0x00000011 })]);
+                t.add_outputs(vec![lib_txout(&ROut { value: 77, script: vec![0x52] })]);
+            }
             _ => {}
         }
         t.sighash_preimage(flag_to_sighash(f2).unwrap(), idx, &script, value).map_err(|e| e.to_string())
@@ -556,6 +570,18 @@ fn history_case(acc: &mut Acc, case: &Case, f1: u32, f2: u32, mutation: &str, id
         "set_nlocktime" => model.locktime = 0x0000beef,
         "add_input" => model.inputs.push(RIn { txid_wire: [0x33; 32], vout: 9, script: vec![], sequence: 0x00000011 }),
         "add_output" => model.outputs.push(ROut { value: 77, script: vec![0x52] }),
+        "add_inputs(two)" => {
+            model.inputs.push(RIn { txid_wire: [0x33; 32], vout: 9, script: vec![], sequence: 0x00000011 });
+            model.inputs.push(RIn { txid_wire: [0x34; 32], vout: 8, script: vec![], sequence: 0x00000012 });
+        }
+        "add_outputs(two)" | "add_outputs(two) from no outputs" => {
+            model.outputs.push(ROut { value: 77, script: vec![0x52] });
+            model.outputs.push(ROut { value: 78, script: vec![0x53] });
+        }
+        "add_inputs(one) add_outputs(one)" => {
+            model.inputs.push(RIn { txid_wire: [0x33; 32], vout: 9, script: vec![], sequence: 0x00000011 });
+            model.outputs.push(ROut { value: 77, script: vec![0x52] });
+        }
         _ => {}
     }
     let want = sh::forkid_preimage(&model, idx, &sub, value, f2);
@@ -682,6 +708,22 @@ pub fn spaces_c10(tier: Tier) -> Vec<Space> {
         let seqs = [7u32, 0xfffffffe, 0x01020304];
         let tx = base_tx(n_in, 3, &seqs[..n_in], true);
         acc.sample(case.idx + (1 << 32), || json!({"space": "codeseparators", "subscript": desc, "subscript_hex": hex::encode(sub)}));
+        check_preimage("C10", &Q { tx: &tx, idx, subscript: sub, value: 0, flag: sh::LEGACY_FLAGS[c[1] as usize] }, acc, case);
+    }));
+    // relation between the transaction and the subscript: the signed input (and / or another input) already carries the
+    // subscript itself as its unlocking script - the manual flow "copy the previous locking script into the input, then sign"
+    let subs2 = std::sync::Arc::new(codesep_subscripts());
+    v.push(Space::new("input-script-equals-subscript", n * 6 * 4 * 2, move |case, acc| {
+        let c = coords(case.idx, &[n, 6, 4, 2]);
+        let (_desc, sub) = &subs2[c[0] as usize];
+        let mut tx = base_tx(2, 2, &[7, 0xfffffffe], true);
+        let idx = c[3] as usize;
+        if c[2] & 1 == 1 {
+            tx.inputs[idx].script = sub.clone();
+        }
+        if c[2] & 2 == 2 {
+            tx.inputs[1 - idx].script = sub.clone();
+        }
         check_preimage("C10", &Q { tx: &tx, idx, subscript: sub, value: 0, flag: sh::LEGACY_FLAGS[c[1] as usize] }, acc, case);
     }));
     v
